@@ -51,6 +51,7 @@ class Builder:
     def __init__(self, pt):
         self.pt = pt
         self.slots = {}          # KEY -> ScratchSlot
+        self.vars = {}           # KEY -> ScratchVar
         self.slot_req = {}       # KEY -> requested id or None
         self.multi = {}          # KEY -> MultiValue object
         self.subs = {}           # SUBKEY -> dict(wrapper=..., recipe=...)
@@ -75,11 +76,76 @@ class Builder:
         self.TY = {"u": pt_.TealType.uint64, "b": pt_.TealType.bytes, "a": pt_.TealType.anytype, "n": pt_.TealType.none}
 
     # ---- slots
+    def var(self, key):
+        """the ScratchVar object behind a symbolic slot (created on first use)"""
+        if key not in self.vars:
+            req = self.slot_req.get(key)
+            v = self.pt.ScratchVar(self.pt.TealType.anytype, req) if req is not None else self.pt.ScratchVar(self.pt.TealType.anytype)
+            self.vars[key] = v
+            self.slots[key] = v.slot
+        return self.vars[key]
+
     def slot(self, key):
         if key not in self.slots:
-            req = self.slot_req.get(key)
-            self.slots[key] = self.pt.ScratchSlot(req) if req is not None else self.pt.ScratchSlot()
+            self.var(key)
         return self.slots[key]
+
+    # ---- subroutines
+    def define_sub(self, key, name, ret, kinds, body):
+        """kinds: string over 'v' (by value, Expr) and 'r' (by reference, ScratchVar); body: recipe using ('param', i),
+        ('refload', i, ty), ('refstore', i, value)."""
+        pt = self.pt
+        names = ["a%d" % i for i in range(len(kinds))]
+        sig = ", ".join(n + (": ScratchVar" if k == "r" else "") for n, k in zip(names, kinds))
+        builder = self
+
+        def _body(pyargs):
+            saved = builder.params
+            builder.params = list(pyargs)
+            try:
+                return builder.build(body)
+            finally:
+                builder.params = saved
+
+        ns = {"ScratchVar": pt.ScratchVar, "_body": _body}
+        exec("def impl(%s):\n    return _body([%s])\n" % (sig, ", ".join(names)), ns)
+        impl = ns["impl"]
+        impl.__name__ = name if name.isidentifier() else "impl"
+        wrapper = pt.Subroutine(self.TY[ret], name=name)(impl)
+        self.subs[key] = {"wrapper": wrapper, "id": wrapper.subroutine.id, "ret": ret, "kinds": kinds, "body": body, "name": name}
+        return wrapper
+
+    def evaluate_subs(self, use_fp):
+        """force SubroutineEval for the convention the compiler will use and read back the argument slots"""
+        for key, sub in self.subs.items():
+            decl = sub["wrapper"].subroutine.get_declaration_by_option(use_fp)
+            kinds = sub["kinds"]
+            n = len(kinds)
+            ops = list(decl.body.args)
+            sub["argslots"] = [None] * n
+            if not use_fp:
+                stores = ops[:n]
+                for i in range(n):
+                    sl = stores[n - 1 - i].slot
+                    self.slots[("arg", key, i)] = sl
+                    sub["argslots"][i] = ("arg", key, i)
+            else:
+                refs = [i for i in range(n) if kinds[i] == "r"]
+                stores = ops[1:1 + len(refs)]
+                for j, i in enumerate(refs):
+                    sl = stores[len(refs) - 1 - j].slot
+                    self.slots[("arg", key, i)] = sl
+                    sub["argslots"][i] = ("arg", key, i)
+
+    def wire_subs(self):
+        out = []
+        for key, sub in self.subs.items():
+            ps = []
+            for i, k in enumerate(sub["kinds"]):
+                sk = sub.get("argslots", [None] * len(sub["kinds"]))[i]
+                ps.append("(%s %d)" % ("true" if k == "r" else "false", self.slot_uid(sk) if sk is not None else 0))
+            out.append("(sub %d %s %s (params %s) %s)" % (sub["id"], sx(sub["name"]), sub["ret"], " ".join(ps), self.wire(sub["body"])))
+        return " ".join(out)
 
     def request_slot(self, key, slot_id):
         self.slot_req[key] = slot_id
@@ -88,7 +154,7 @@ class Builder:
         """wire uid of a slot object: its id when automatic, 100000+k for reserved ones"""
         s = self.slots[key]
         if s.isReservedSlot:
-            return 100000 + sorted(k for k in self.slots if self.slots[k].isReservedSlot).index(key)
+            return 100000 + sorted((repr(k) for k in self.slots if self.slots[k].isReservedSlot)).index(repr(key))
         return s.id
 
     # ---- build
@@ -154,7 +220,15 @@ class Builder:
         if k == "wide":
             return pt.WideRatio([self.build(x) for x in r[1]], [self.build(x) for x in r[2]])
         if k == "param":
-            return self.params[r[1]]
+            p = self.params[r[1]]
+            # a by-reference parameter used as a value is the slot number it refers to
+            return p.index() if isinstance(p, pt.ScratchVar) else p
+        if k == "refload":
+            return self.params[r[1]].load()
+        if k == "refstore":
+            return self.params[r[1]].store(self.build(r[2]))
+        if k == "varref":
+            return self.var(r[1])
         raise BuildError("unknown recipe node %r" % (k,))
 
     def build_op(self, name, imms, ty, a):
@@ -260,6 +334,14 @@ class Builder:
             return "(call %d %s (%s))" % (sub["id"], sub["ret"], " ".join(self.wire(x) for x in args))
         if k == "wide":
             return "(wide (%s) (%s))" % (" ".join(self.wire(x) for x in r[1]), " ".join(self.wire(x) for x in r[2]))
+        if k == "param":
+            return "(param %d)" % r[1]
+        if k == "refload":
+            return "(op \"loads\" () %s ((param %d)))" % (r[2], r[1])
+        if k == "refstore":
+            return "(op \"stores\" () n ((param %d) %s))" % (r[1], self.wire(r[2]))
+        if k == "varref":
+            return "(op \"int\" ((slot %d)) u ())" % self.slot_uid(r[1])
         raise BuildError("wire: %r" % (k,))
 
     def wire_imm(self, i):
@@ -279,7 +361,9 @@ class Builder:
             out.append("(%d %d %s)" % (self.slot_uid(key), s.id, "true" if s.isReservedSlot else "false"))
         return "(slots " + " ".join(out) + ")"
 
-    def wire_prog(self, main, subs_wire=""):
+    def wire_prog(self, main, subs_wire=None):
+        if subs_wire is None:
+            subs_wire = self.wire_subs()
         return "(prog %s (subs %s) %s)" % (self.wire(main), subs_wire, self.wire_slots())
 
 
